@@ -266,7 +266,9 @@ func TestVerifC05_Reassembly(t *testing.T) {
 	rapid.Check(t, func(rt *rapid.T) {
 		nmsg := rapid.IntRange(1, 4).Draw(rt, "nmsg")
 		sameCount := rapid.Bool().Draw(rt, "sameCount")
-		pids := rapid.SliceOfNDistinct(rapid.Uint16Range(0, 6), nmsg, nmsg, rapid.ID[uint16]).Draw(rt, "pids")
+		// distinct packet IDs; besides small ones, IDs that differ from each other in a single bit,
+		// only in the high byte or only in the low byte (any hashing/truncation of the ID must keep them apart)
+		pids := vGenPIDs(rt, nmsg)
 		origs := make([]vOrigMsg, nmsg)
 		frags := make([][]protocol.UDPMessage, nmsg)
 		cnt0 := rapid.IntRange(1, 6).Draw(rt, "cnt0")
@@ -436,6 +438,37 @@ func TestVerifC05_Reassembly(t *testing.T) {
 			return fmt.Sprintf("msgs=%d counts=%v arrivals=%v emitted=%v", nmsg, vCounts(origs), trace, emitted)
 		})
 	})
+}
+
+func vGenPIDs(rt *rapid.T, n int) []uint16 {
+	base := rapid.Uint16().Draw(rt, "pidBase")
+	small := rapid.IntRange(0, 2).Draw(rt, "pidSmall") == 0
+	seen := map[uint16]bool{}
+	var out []uint16
+	for len(out) < n {
+		var p uint16
+		if small {
+			p = rapid.Uint16Range(0, 6).Draw(rt, "pid")
+		} else {
+			switch rapid.IntRange(0, 4).Draw(rt, "pidMode") {
+			case 0:
+				p = base
+			case 1:
+				p = base ^ (1 << rapid.IntRange(0, 15).Draw(rt, "pidBit"))
+			case 2:
+				p = base ^ (uint16(rapid.IntRange(1, 255).Draw(rt, "pidHi")) << 8)
+			case 3:
+				p = base ^ uint16(rapid.IntRange(1, 255).Draw(rt, "pidLo"))
+			default:
+				p = rapid.Uint16().Draw(rt, "pidAny")
+			}
+		}
+		if !seen[p] {
+			seen[p] = true
+			out = append(out, p)
+		}
+	}
+	return out
 }
 
 func vIota(n int) []int {
